@@ -67,8 +67,9 @@ def showRData : RData → String
     "SIG:" ++ toString c ++ ":" ++ toString a ++ ":" ++ toString l ++ ":" ++ toString o ++ ":" ++ toString e ++
       ":" ++ toString i ++ ":" ++ toString t ++ ":" ++ showName n ++ ":" ++ toHex sg
   | .nsec n ts => "NSEC:" ++ showName n ++ ":" ++ showTypes ts
-  | .nsec3 oo it salt hash ts =>
-    "NSEC3:" ++ showBool oo ++ ":" ++ toString it ++ ":" ++ toHex salt ++ ":" ++ toHex hash ++ ":" ++ showTypes ts
+  | .nsec3 oo it salt hash b32 ts =>
+    "NSEC3:" ++ showBool oo ++ ":" ++ toString it ++ ":" ++ toHex salt ++ ":" ++ toHex hash ++ ":" ++
+      (match b32 with | some l => toHex l | none => "!") ++ ":" ++ showTypes ts
   | .nsec3param oo it salt => "NSEC3PARAM:" ++ showBool oo ++ ":" ++ toString it ++ ":" ++ toHex salt
   | .cert ct tag alg d => "CERT:" ++ toString ct ++ ":" ++ toString tag ++ ":" ++ toString alg ++ ":" ++ toHex d
   | .csync serial flags ts => "CSYNC:" ++ toString serial ++ ":" ++ toString flags ++ ":" ++ showTypes ts
